@@ -110,6 +110,14 @@ CLAIMED["C02"] = dict(
     technique="Coq proof (closed form of the decryption pipeline) + extracted-model correspondence with mutation",
 )
 
+CLAIMED["C04"] = dict(
+    category="proof",
+    text="Theorems in coq/Props/Properties_C04.v: the content layer round trip dec(enc(pt)) = pt for AES-GCM and AES-CBC-HMAC models of lib/openssl/aesgcm.c / aescbch.c, proved from the AEAD law of the primitive (what enc stores in iv/tag/ciphertext is what dec reads, over the same AAD input); the product of jose_jwe_enc_cek is the RFC 7516 construction (enc recorded, protected encoded once, compress-before-encrypt exactly when zip is protected, seal, base64url); decryption is its mirror. Tie, both directions: every recipient key of jose-produced tokens (all key-management x content-encryption x zip x aad, plaintext lengths 0..4352 [70000 thorough], parameters in protected or split headers) decrypts in jose AND on the independent model (symmetric and PBES2 extracted; ECDH-ES over BigZ and RSA with a checked witness inside coqc); ciphertext and tag bit-identical to the model's re-encryption under the same CEK and IV; model-produced tokens (incl. stored-block DEFLATE) decrypt in jose; all RFC 7520 section 5 examples; two-recipient tokens, foreign keys, re-wrapping a recovered CEK to a third recipient.",
+    design_ref="DESIGN.md section 3 C03/C04",
+    note="Coq kernel; no axioms in the theorems; AEAD / key-wrap laws are hypotheses (validated, not proved); Int63 primitives only inside the BigZ evaluation.",
+    technique="Coq proof from primitive laws + bit-exact and cross-decryption correspondence with independent Gallina primitives",
+)
+
 NOT_YET = {}
 
 def main():
